@@ -24,6 +24,55 @@ CodecOK(e) ==
 (* Apply of the stream; refusing is allowed *)
 ApplyOK(e) == e.ok => e.out = Proj(Apply(e.ms, e.lits, e.dict))
 
+(* BitWriter::write_bits -> finish -> BitReader::read_bits: every value comes back masked to its width,  *)
+(* bits_written / bit_position account for every bit, less than a byte of padding remains (values < 2^31)    *)
+WidthSum(ws) == FoldLeft(LAMBDA a, q : a + q[2], 0, ws)
+MaskTo(v, w) == IF w >= 31 THEN v ELSE v % (2 ^ w)
+BitsOK(e) ==
+    e.ok => /\ e.written = WidthSum(e.ws)
+            /\ e.buf_len = (WidthSum(e.ws) + 7) \div 8
+            /\ Len(e.rd) = Len(e.ws)
+            /\ \A i \in 1..Len(e.ws) : e.rd[i] = MaskTo(e.ws[i][1], e.ws[i][2])
+            /\ e.pos = WidthSum(e.ws)
+            /\ ~e.tail8
+
+(* Match::literal / global / rle / near_short / ...: a constructor that accepts returns the operands given *)
+CtorOK(e) == e.ok => e.got = e.m
+
+(* the kind selectors (get_encoding_meta, choose_best_compression_type_reference and                        *)
+(* reference_encoding::get_back_ref_encoding_meta are twins and agree;                                       *)
+(* choose_best_compression_type agrees where it answers through the reference logic); WHICH kind is chosen *)
+(* is not constrained, but a match of the chosen kind that the constructor accepts has the operands asked   *)
+(* for and is supported by its kind                                                                          *)
+ChooseOK(e) ==
+    /\ e.k_meta = e.k_ref /\ e.k_back = e.k_ref
+    /\ (e.len >= 1 /\ (e.d >= 1 \/ e.len = 1)) => e.k_legacy = <<e.k_ref>>
+    /\ e.ctor_ok => /\ e.got.k = e.k_ref /\ e.got.len = e.len
+                    /\ (IsCopy(e.got) => e.got.d = e.d)
+                    /\ e.supports
+
+(* ReferenceEncoder::encode_*: the bytes written, read back by RefDecodeOne, are the match asked for *)
+RefEncOK(e) ==
+    e.ok => IF e.kind = "lit"
+            THEN LET r == RefApply(e.bytes, <<>>) IN r.ok /\ r.out = e.data
+            ELSE LET r == RefDecodeOne(e.bytes, 0) IN
+                 /\ r.ok /\ r.p = Len(e.bytes)
+                 /\ r.m.k = e.kind /\ r.m.len = e.len
+                 /\ (e.kind = "glob" => r.m.pos = e.pos)
+                 /\ (e.kind # "glob" => r.m.d = e.d)
+
+(* compress_record_reference: the record it wrote decodes (by the reader of this specification) to the payload *)
+RefRecOK(e) == e.ok => LET r == RefApply(e.frame, e.dict) IN r.ok /\ r.out = e.x
+
+(* SuffixArrayDictionary::find_longest_match / find_all_matches: a match that is reported lies inside the     *)
+(* dictionary and its bytes are the bytes of the pattern (projected to digests by the harness)                 *)
+GMatchOK(e) ==
+    \A i \in 1..Len(e.probes) :
+        LET q == e.probes[i] IN q.found => /\ q.inb /\ q.mlen >= 1 /\ q.mlen <= q.plen /\ q.dslice = q.ppre
+
+(* a dictionary that was serialised / saved and read back has the text it had *)
+ReloadOK(e) == e.ok => e.text = e.orig
+
 (* what the harness logged about the choice compress made (coverage; read by the deviation guards) *)
 Note(e) == [tag |-> e.tag, via |-> e.via, algo |-> IF Has(e, "algo") THEN e.algo ELSE "",
             fellback |-> IF Has(e, "fellback") THEN e.fellback ELSE FALSE,
@@ -38,6 +87,13 @@ Step(e) ==
     \/ e.op \in {"info", "batch"} /\ Info
     \/ e.op = "codec"      /\ CodecOK(e) /\ UNCHANGED fvars
     \/ e.op = "apply"      /\ ApplyOK(e) /\ UNCHANGED fvars
+    \/ e.op = "bits"       /\ BitsOK(e) /\ UNCHANGED fvars
+    \/ e.op = "ctor"       /\ CtorOK(e) /\ UNCHANGED fvars
+    \/ e.op = "choose"     /\ ChooseOK(e) /\ UNCHANGED fvars
+    \/ e.op = "refenc"     /\ RefEncOK(e) /\ UNCHANGED fvars
+    \/ e.op = "refrec"     /\ RefRecOK(e) /\ UNCHANGED fvars
+    \/ e.op = "gmatch"     /\ GMatchOK(e) /\ UNCHANGED fvars
+    \/ e.op = "reload"     /\ ReloadOK(e) /\ UNCHANGED fvars
     (* no action for "panic" and "crash": a compressor that panics or kills the process is rejected *)
 
 TraceNext ==
